@@ -299,6 +299,10 @@ impl Report {
                 .collect::<Vec<_>>()),
         );
         coverage.insert("inconclusive".into(), json!(g.inconclusive));
+        coverage.insert(
+            "max_loop_iterations_in_one_scenario".into(),
+            json!(crate::world::MAX_SEEN_ITERATIONS.load(std::sync::atomic::Ordering::Relaxed)),
+        );
         for (k, v) in g.extra.iter() {
             coverage.insert(k.clone(), v.clone());
         }
